@@ -353,7 +353,7 @@ fn annotate(p: &Prog, k: u64) -> Option<(Prog, String)> {
                 let mut f2 = f.clone();
                 // parameters of the harness's helper functions and of dsp are floats unless annotated otherwise
                 for (n, _) in f2.params.iter_mut() {
-                    if !n.contains(':') && f.name != "apply" && f.name != "sw" && f.name != "sumrec" && f.name != "mt" {
+                    if !n.contains(':') && f.name != "apply" && f.name != "sapply" && f.name != "sw" && f.name != "sumrec" && f.name != "mt" {
                         if counter == k {
                             what = format!("parameter {n} of {}", f.name);
                             *n = format!("{n}:float");
